@@ -12,7 +12,9 @@ def det_scenarios(ctx, quick):
     for p in progs:
         scn.append({"id": len(scn) + 1, "decls": p["decls"], "seed": ctx.seed})
     for g in calls:
-        scn.append({"id": len(scn) + 1, "decls": fam_seq.complete(g["decls"]), "seed": ctx.seed})
+        # a project application draws up to four endpoints as sequence diagrams of its own (`sysl sd -o %(epname).puml`),
+        # with one called endpoint as a blackbox of the project and of one of its diagrams
+        scn.append({"id": len(scn) + 1, "decls": fam_seq.complete(g["decls"]), "seed": ctx.seed, "project": True, "reps": 12})
     for g in types:
         scn.append({"id": len(scn) + 1, "decls": g["decls"], "seed": ctx.seed})
     # chained mixins (A -|> B, B -|> NS :: C, ...): the compiled model then depends on the order in
